@@ -273,3 +273,99 @@ def sig_stmts(body):
             continue
         out.append(st)
     return out
+
+
+def str_parts(e):
+    """A string-building expression as a flat list of parts ('lit', text) / ('expr', node), whatever its
+    spelling: a constant, an f-string, 'fmt'.format(...) with {} / {0} / {name} fields, a '+' chain of those,
+    'fmt' % (...) with %s fields.  Returns None for anything else."""
+    import re as _re
+    if isinstance(e, ast.Constant) and isinstance(e.value, str):
+        return [("lit", e.value)] if e.value else []
+    if isinstance(e, ast.JoinedStr):
+        out = []
+        for v in e.values:
+            if isinstance(v, ast.Constant):
+                out.append(("lit", v.value))
+            elif isinstance(v, ast.FormattedValue) and v.format_spec is None and v.conversion in (-1, 115):
+                out.append(("expr", v.value))
+            else:
+                return None
+        return _merge(out)
+    if isinstance(e, ast.Call) and isinstance(e.func, ast.Attribute) and e.func.attr == "format" and isinstance(e.func.value, ast.Constant) \
+            and isinstance(e.func.value.value, str):
+        fmt = e.func.value.value
+        out = []
+        pos = 0
+        auto = 0
+        for m in _re.finditer(r"\{\{|\}\}|\{([A-Za-z_0-9]*)\}", fmt):
+            if m.start() > pos:
+                out.append(("lit", fmt[pos:m.start()]))
+            tok = m.group(0)
+            if tok == "{{":
+                out.append(("lit", "{"))
+            elif tok == "}}":
+                out.append(("lit", "}"))
+            else:
+                name = m.group(1)
+                if name == "":
+                    idx = auto
+                    auto += 1
+                    if idx >= len(e.args):
+                        return None
+                    out.append(("expr", e.args[idx]))
+                elif name.isdigit():
+                    if int(name) >= len(e.args):
+                        return None
+                    out.append(("expr", e.args[int(name)]))
+                else:
+                    kw = [k.value for k in e.keywords if k.arg == name]
+                    if not kw:
+                        return None
+                    out.append(("expr", kw[0]))
+            pos = m.end()
+        if "{" in fmt[pos:] or "}" in fmt[pos:]:
+            return None
+        if pos < len(fmt):
+            out.append(("lit", fmt[pos:]))
+        return _merge(out)
+    if isinstance(e, ast.BinOp) and isinstance(e.op, ast.Add):
+        l, r = str_parts(e.left), str_parts(e.right)
+        if l is None and r is None:
+            return None
+        l = l if l is not None else [("expr", e.left)]
+        r = r if r is not None else [("expr", e.right)]
+        return _merge(l + r)
+    if isinstance(e, ast.BinOp) and isinstance(e.op, ast.Mod) and isinstance(e.left, ast.Constant) and isinstance(e.left.value, str):
+        args = list(e.right.elts) if isinstance(e.right, ast.Tuple) else [e.right]
+        pieces = e.left.value.split("%s")
+        if len(pieces) != len(args) + 1 or "%" in "".join(pieces).replace("%%", ""):
+            return None
+        out = []
+        for i, pc in enumerate(pieces):
+            if pc:
+                out.append(("lit", pc.replace("%%", "%")))
+            if i < len(args):
+                out.append(("expr", args[i]))
+        return _merge(out)
+    if isinstance(e, ast.Call) and isinstance(e.func, ast.Name) and e.func.id == "str" and len(e.args) == 1:
+        return [("expr", e.args[0])]
+    return None
+
+
+def _merge(parts):
+    out = []
+    for k, v in parts:
+        if k == "lit" and out and out[-1][0] == "lit":
+            out[-1] = ("lit", out[-1][1] + v)
+        elif not (k == "lit" and v == ""):
+            out.append((k, v))
+    return out
+
+
+def str_template(e):
+    """'{}#{}' for any spelling of key + '#' + version; None if `e` is not a string-building expression."""
+    p = str_parts(e)
+    if p is None:
+        return None
+    return "".join(v.replace("{", "{{").replace("}", "}}") if k == "lit" else "{}" for k, v in p), [v for k, v in p if k == "expr"]
